@@ -27,14 +27,17 @@
    copied ones makes the result depend on the walk order: not enabled). *)
 EXTENDS FsTree, TLC, Json
 
-CONSTANTS Names, Data, MaxDepth, MaxOps, MaxCommits, WithFault, Emit
+CONSTANTS Names, Data, MaxDepth, MaxOps, MaxCommits, WithFault, Emit, Spine
 
 VARIABLES remote, buffer, rm, rmAll, mk, wr,    \* implementation state
           remote0, ideal, dev,                 \* ghost: initial remote, ideal tree, triggered deviations
           nops, ncommits, lastFaulted, hist
 vars == <<remote, buffer, rm, rmAll, mk, wr, remote0, ideal, dev, nops, ncommits, lastFaulted, hist>>
 
-Paths == UNION { [1..n -> Names] : n \in 1..MaxDepth }
+\* Spine = TRUE: instead of every path up to MaxDepth, ONE deep spine with two leaves (a, a/b, a/b/a, a/b/b): three
+\* levels stay explorable, and histories such as "write below a/b, remove a recursively, write below a/b again" exist
+Paths == IF Spine THEN {<<"a">>, <<"a", "b">>, <<"a", "b", "a">>, <<"a", "b", "b">>}
+         ELSE UNION { [1..n -> Names] : n \in 1..MaxDepth }
 RemoteInits == { t \in UNION { [S -> {"D", "x"}] : S \in SUBSET Paths } : Wf(t) }
 
 \* single outcome of a deterministic FsTree call (the cache never addresses the root)
@@ -67,6 +70,8 @@ Trig(name, p, q, res, idealOut) ==
       (IF res = OK /\ idealOut.res # OK THEN {"D_AcceptsRejected"} ELSE {})
  \cup (IF res # OK /\ idealOut.res = OK THEN {"D_RejectsAccepted"} ELSE {})
  \cup (IF name \in {"remove", "removeall"} /\ (RemoteHas(p) \/ Under(remote, p) # {}) THEN {"D_RemoveRemote"} ELSE {})
+ \* the part of D_RemoveRemote that outlives Commit: a NON-recursive remove of a remote directory is never applied
+ \cup (IF name = "remove" /\ IsDir(remote, p) THEN {"D_RemoveRemoteDir"} ELSE {})
  \cup (IF name \in {"remove", "removeall"} /\ \E x \in wr \cup mk : IsPrefixOf(p, x) THEN {"D_OrderLost"} ELSE {})
  \cup (IF res # OK /\ name \in {"write", "wstream", "mkdir", "copyfile"} THEN {"D_FailedJournaled"} ELSE {})
  \cup (IF name = "copydir" /\ res = OK THEN {"D_DirCopy"} ELSE {})
@@ -200,5 +205,15 @@ CommitExact == (Clean /\ LastCommitOk) => remote = ideal                        
 FaultReported == (Clean /\ lastFaulted) => hist[Len(hist)].res = ERR                  \* C06: a remote failure is reported
 CleanCommitNeverFails == (Clean /\ ncommits > 0 /\ ~lastFaulted) => LastCommitOk       \* without a fault a clean history always commits
 ViewEqIdeal == (Clean /\ ncommits = 0) => \A p \in Paths : ViewOf(p) = IdealOf(p)     \* C07
+\* D_RemoveRemote concerns the VIEW only (a removed remote node stays visible until Commit): histories go on
+\* through it, and Commit must still make the remote equal to direct application
+CommitClean == dev \subseteq {"D_RemoveRemote"}
+CommitExactRR == (CommitClean /\ LastCommitOk) => remote = ideal
+FaultReportedRR == (CommitClean /\ lastFaulted) => hist[Len(hist)].res = ERR
+\* D_OrderLost concerns COMMIT only (removes are replayed before writes whatever their order was): the view of
+\* such a history still equals direct application, and histories go on through it
+ViewClean == dev \subseteq {"D_OrderLost"}
+ViewEqIdealOL == (ViewClean /\ ncommits = 0) => \A p \in Paths : ViewOf(p) = IdealOf(p)
+Explorable == dev \subseteq {"D_RemoveRemote", "D_OrderLost"}
 ViewHist == <<remote, buffer, rm, rmAll, mk, wr, remote0, ideal, dev, nops, ncommits, lastFaulted>>
 =============================================================================
